@@ -157,6 +157,25 @@ func c02Roundtrip(c *core.Ctx, k *core.Case) {
 			c.Fail(k, "roundtrip-differs:"+def.Name+"."+sl, fmt.Sprintf("%s.%s: original %s, after encode/decode %s (wire %s)", def.Name, sl, describeSlot(orig, sl), describeSlot(o2, sl), hx(wire)))
 			return
 		}
+		// the decoded message is the caller's: overwrite every scalar in it, then the same bytes
+		// must still decode to the original (a decoder that hands out shared package memory fails)
+		scribbleAll(reflect.ValueOf(m2), 0)
+		in3 := cloneB(wire)
+		var m3 *nas.Message
+		if path == pathPlain {
+			m3 = nas.NewMessage()
+			err = m3.PlainNasDecode(&in3)
+		} else {
+			m3, err = familyDecode(in3, def)
+		}
+		if err != nil || !reflect.DeepEqual(m, m3) {
+			where := "?"
+			if _, _, o3 := bodyPointers(m3); o3 != nil && err == nil {
+				where = firstDiff(def, orig, o3)
+			}
+			c.Fail(k, "decode-depends-on-earlier-result:"+def.Name+"."+where, fmt.Sprintf("after the first decoded %s was overwritten by its owner, decoding the same bytes again gives a different message at %s (err %v; wire %s)", def.Name, where, err, hx(wire)))
+			return
+		}
 		// the value that was encoded is still the value: encode it again, this
 		// time behind data already in the caller's buffer (an outer security
 		// header, a previous message), and once more through PlainNasEncode
